@@ -47,7 +47,10 @@ PAIR_CLASSES = ("Network", "InteractingNetworks", "GeoNetwork",
                 "RecurrenceNetwork", "CrossRecurrencePlot",
                 "JointRecurrencePlot", "JointRecurrenceNetwork",
                 "VisibilityGraph", "Surrogates", "ClimateData", "GeoGrid",
-                "Grid", "EventSeries")
+                "Grid", "EventSeries", "PartialCorrelationClimateNetwork",
+                "HavlinClimateNetwork", "HilbertClimateNetwork",
+                "CoupledClimateNetwork", "EventSeriesClimateNetwork",
+                "InterSystemRecurrenceNetwork")
 
 
 def all_queries(spec):
@@ -150,7 +153,10 @@ class C06(Machine):
         ms = a.randrange(10 ** 9)
         if topo == "shared_data":
             cl = [a.choice(("TsonisClimateNetwork", "SpearmanClimateNetwork",
-                            "MutualInfoClimateNetwork")) for _ in range(2)]
+                            "MutualInfoClimateNetwork",
+                            "HavlinClimateNetwork", "HilbertClimateNetwork",
+                            "PartialCorrelationClimateNetwork"))
+                  for _ in range(2)]
             builds = [{"cls": c, "ms": ms} for c in cl]
         elif topo == "shared_grid":
             builds = [{"cls": "GeoNetwork", "ms": ms},
